@@ -232,3 +232,55 @@ Proof.
   rewrite IH; [| apply spec_step_wf, H | rewrite spec_step_mem; exact Hm].
   apply spec_step_no_panic; [wf_open H; assumption | rewrite Hm; apply user_safe].
 Qed.
+
+(* ------------------------------------------------------------------ a pending request is neither lost nor invented by an instruction *)
+Lemma exec_irq u m i cpu : g_Interrupt (exec u m i cpu) = g_Interrupt cpu.
+Proof. exact (proj1 (exec_keeps_env u m i cpu)). Qed.
+Lemma exec_idxcb_irq u m d i cpu : g_Interrupt (exec_idxcb u m d i cpu) = g_Interrupt cpu.
+Proof. exact (proj1 (exec_idxcb_keeps_env u m d i cpu)). Qed.
+Lemma fetch8_irq cpu : g_Interrupt (fst (fetch8 cpu)) = g_Interrupt cpu.
+Proof. cbv beta iota zeta delta [fetch8 rd mem_get]. cbv_struct. reflexivity. Qed.
+Lemma fetch_m1_irq cpu : g_Interrupt (fst (fetch_m1 cpu)) = g_Interrupt cpu.
+Proof. cbv beta iota zeta delta [fetch_m1 fetch8 rd mem_get]. cbv_struct. reflexivity. Qed.
+Lemma exec_idx_irq u m c cpu : g_Interrupt (exec_idx u m c cpu) = g_Interrupt cpu.
+Proof.
+  unfold exec_idx. destruct (decode_idx c) eqn:E; try apply exec_irq.
+  pose proof (fetch8_irq cpu) as M1. destruct (fetch8 cpu) as [cpu1 d]. cbn [fst snd] in *.
+  destruct (u_cbidx_ticks u).
+  - pose proof (fetch_m1_irq cpu1) as M2. destruct (fetch_m1 cpu1) as [cpu2 c3]. cbn [fst snd] in *. rewrite exec_idxcb_irq. congruence.
+  - pose proof (fetch8_irq cpu1) as M2. destruct (fetch8 cpu1) as [cpu2 c3]. cbn [fst snd] in *. rewrite exec_idxcb_irq. congruence.
+Qed.
+Lemma step_idx_irq u m cpu : g_Interrupt (step_idx u m cpu) = g_Interrupt cpu.
+Proof.
+  unfold step_idx. pose proof (fetch_m1_irq cpu) as M1. destruct (fetch_m1 cpu) as [cpu1 c1]. cbn [fst snd] in *.
+  rewrite exec_idx_irq. exact M1.
+Qed.
+Theorem step_instr_irq u cpu : g_Interrupt (step_instr u cpu) = g_Interrupt cpu.
+Proof.
+  unfold step_instr. pose proof (fetch_m1_irq cpu) as M1. destruct (fetch_m1 cpu) as [cpu1 c0]. cbn [fst snd] in *.
+  destruct (decode_main c0) eqn:E; try (rewrite exec_irq; exact M1); try (rewrite step_idx_irq; exact M1).
+  - pose proof (fetch_m1_irq cpu1) as M2. destruct (fetch_m1 cpu1) as [cpu2 c1]. cbn [fst snd] in *. rewrite exec_irq. congruence.
+  - pose proof (fetch_m1_irq cpu1) as M2. destruct (fetch_m1 cpu1) as [cpu2 c1]. cbn [fst snd] in *. rewrite exec_irq. congruence.
+Qed.
+(* a maskable request that is refused (IFF1 clear) is still pending after the Step, unchanged; with no request pending none appears *)
+Theorem refused_request_stays u cpu irq : g_Interrupt cpu = Some irq -> Interrupt_Type irq <> 0 -> g_IFF1 cpu = false ->
+  spec_step u cpu = step_instr u cpu /\ g_Interrupt (spec_step u cpu) = Some irq.
+Proof.
+  intros Hi Ht Hf. assert (E : spec_step u cpu = step_instr u cpu).
+  { unfold spec_step. rewrite Hi. unfold try_interrupt. destruct (Z.eqb_spec (Interrupt_Type irq) NMI_type) as [Hx|_]; [contradiction|].
+    rewrite Hf. reflexivity. }
+  split; [exact E|]. rewrite E, step_instr_irq. exact Hi.
+Qed.
+Theorem no_request_appears u cpu : g_Interrupt cpu = None -> g_Interrupt (spec_step u cpu) = None.
+Proof. intros Hi. unfold spec_step. rewrite Hi. rewrite step_instr_irq. exact Hi. Qed.
+(* an accepted or consumed request is retired: whenever the Step is not the plain instruction step, nothing is pending afterwards *)
+Theorem accepted_request_retired u cpu irq : g_Interrupt cpu = Some irq ->
+  (Interrupt_Type irq = 0 \/ (g_IFF1 cpu = true /\ (g_IM cpu = 0 \/ g_IM cpu = 1 \/ g_IM cpu = 2))) ->
+  g_Interrupt (spec_step u cpu) = None.
+Proof.
+  intros Hi Hc. unfold spec_step. rewrite Hi. unfold try_interrupt.
+  destruct Hc as [Ht | (Hf & Hm)].
+  - rewrite Ht. reflexivity.
+  - destruct (Interrupt_Type irq =? NMI_type); [reflexivity|]. rewrite Hf. cbn [negb].
+    destruct Hm as [-> | [-> | ->]]; reflexivity.
+Qed.
